@@ -229,7 +229,7 @@ fn system(ais: &[AccountInfo], data: &[u8]) -> ProgramResult {
     }
 }
 
-#[derive(Clone, Default)]
+#[derive(Clone, Default, Debug)]
 pub struct Vm {
     pub accts: BTreeMap<Pubkey, Arc<Acct>>,
     pub clock: Clock,
